@@ -44,16 +44,28 @@ Definition fin_eqb (a b : fin) : bool :=
   | _, _ => false                      (* FinFuel, FinOther never match *)
   end.
 
+Definition carrier_eqb (a b : option (nat * vkind)) : bool :=
+  match a, b with
+  | None, None => true
+  | Some (n, k), Some (n', k') =>
+      Nat.eqb n n' && match k, k' with
+                      | VkInt, VkInt | VkStr, VkStr | VkErr, VkErr | VkFault, VkFault => true
+                      | _, _ => false            (* VkOther never matches *)
+                      end
+  | _, _ => false
+  end.
+
 (** call depth is bounded by the table size in generated cases *)
 Definition c06_fuel : nat := 40.
 
 (** id, aimed at a known-finding region, program, observed from yaegi, observed from compiled Go *)
-Definition c06_case := (N * bool * prog * (list event * fin) * (list event * fin))%type.
+Definition c06_case := (N * bool * prog * (list event * fin * option (nat * vkind)) * (list event * fin))%type.
 
 Definition c06_mis_y (cs : list c06_case) : list N :=
-  flat_map (fun '(id, region, p, (itr, ifin), _) =>
+  flat_map (fun '(id, region, p, (itr, ifin, icar), _) =>
     let '(tr, fn, fl) := y_run c06_fuel p in
-    if events_eqb tr itr && fin_eqb fn ifin && (region || negb fl) then [] else [id]) cs.
+    let '(_, r, _) := y_eval c06_fuel p in
+    if events_eqb tr itr && fin_eqb fn ifin && carrier_eqb (y_carrier r) icar && (region || negb fl) then [] else [id]) cs.
 
 Definition c06_mis_g (cs : list c06_case) : list N :=
   flat_map (fun '(id, _, p, _, (rtr, rfin)) =>
